@@ -562,12 +562,41 @@ def run_hyper(case, rec, rng):
         p_i = Params(nn_params=params.nn_params,
                      eq_params={k: (jnp.asarray(tabs[k][i]) if k in batched else params.eq_params[k]) for k in KEYS})
         _, ti = guard.call(ev, loss, p_i, mk(slice(i, i + 1)))
+        if i == 0:
+            # the same unbatched evaluation op by op, with the caller's dictionary in its own insertion order (jit
+            # re-sorts dictionary keys: an input assembled in dictionary order would differ between the two)
+            _, te = guard.call(loss.evaluate, p_i, mk(slice(i, i + 1)))
+            rec.count("eager_evaluations")
+            for t in ti:
+                if not close(float(te[t]), float(ti[t]), 1e-10, 1e-12):
+                    rec.violation(sig + "/%s/eager-differs-from-jit" % t,
+                                  "hyper-network (hyperparams ['phi', 'kappa']): unbatched term %s is %r eagerly, %r under jit"
+                                  % (t, float(te[t]), float(ti[t])))
         p_m = Params(nn_params=params.nn_params,
                      eq_params={k: (jnp.asarray(np.mean(tabs[k], axis=0)) if k in batched else params.eq_params[k]) for k in KEYS})
         _, tm = guard.call(ev, loss, p_m, mk(slice(i, i + 1)))
         for t in ti:
             acc[t] = acc.get(t, 0.0) + float(ti[t]) / B
             acc_mean[t] = acc_mean.get(t, 0.0) + float(tm[t]) / B
+    # the initial-condition term recomputed from DIRECT calls of the wrapper (outside any jinns loss / vmap, parameters in
+    # a dictionary written in the declared hyper-parameter order): row i of the batched keys must reach the
+    # hyper-network in the slots of the declared hyperparams list
+    if kind in ("ode", "nonstatio") and "initial_condition" in terms:
+        vals = []
+        for i in range(B):
+            p_i = Params(nn_params=params.nn_params,
+                         eq_params={k: (jnp.asarray(tabs[k][i]) if k in batched else params.eq_params[k]) for k in KEYS})
+            if kind == "ode":
+                ui = guard.call(u, jnp.asarray([0.25]), p_i)
+                vals.append(float(np.sum((np.asarray(ui) - 0.3) ** 2)))
+            else:
+                ui = guard.call(u, jnp.zeros((1,)), jnp.asarray(pts[i, 1:]), p_i)
+                vals.append(float(np.sum((0.2 - np.asarray(ui)) ** 2)))
+        rec.count("hyper_direct_call_references")
+        if not close(float(terms["initial_condition"]), float(np.mean(vals)), 1e-8, 1e-10):
+            rec.violation(sig + "/initial_condition/differs-from-direct-wrapper-calls",
+                          "hyper-network: initial-condition term %r, from direct calls of the wrapper with row i of %s: %r"
+                          % (float(terms["initial_condition"]), batched, float(np.mean(vals))))
     for t in acc:
         rec.count("terms_compared")
         if abs(acc[t] - acc_mean[t]) > 1e-6:
